@@ -338,6 +338,13 @@ func admit(what string) bool {
 	return admitN[what] <= 12
 }
 
+func passNote(e string) string {
+	if e == "" {
+		return ""
+	}
+	return " (the pass had failed: " + short(e, 200) + ")"
+}
+
 var inPlaceOps = map[string]bool{"extend": true, "comment": true, "annotate": true, "expire": true, "relog": true}
 
 func copyFile(dst, src string) error {
@@ -426,7 +433,7 @@ func replayStore(t *testing.T, res *hx.Result, idx int, line []byte, b *sBehavio
 		t.Fatalf("behaviour %d: start on an empty directory: %v", idx, err)
 	}
 	running = true
-	now, nops, passes := 0, 0, 0.0
+	now, nops, passes, failedPasses, passErr := 0, 0, 0.0, 0.0, ""
 	capt := map[string]string{} // concrete state captured by the last completed pass
 	var since []string          // API writes since the last completed pass
 	contentOnly := false        // the last completed pass followed in-place changes only, with the id set unchanged
@@ -466,8 +473,21 @@ func replayStore(t *testing.T, res *hx.Result, idx int, line []byte, b *sBehavio
 				stop()
 			}
 			passes++
-			if p, e := lv.maint(); p != passes || e != 0 {
-				t.Fatalf("behaviour %d step %d (%s): the real Maintenance ran %v passes (%v failed), the driver expects %v: not a verdict", idx, i, st.Op, p, e, passes)
+			p, e := lv.maint()
+			if p != passes {
+				t.Fatalf("behaviour %d step %d (%s): the real Maintenance ran %v passes, the driver expects %v: not a verdict", idx, i, st.Op, p, passes)
+			}
+			if e != failedPasses {
+				// no fault is injected here and the environment was probed (crossDevice): a pass that returns an
+				// error delivered no snapshot although it could have - the store goes on, the loss shows at the
+				// next start
+				failedPasses = e
+				passErr = lv.lastError()
+				res.Count("maintenance_passes_failed_without_injected_fault", 1)
+				fail(i, "lossless", "a maintenance pass fails although no fault is injected: no snapshot of the current state is written",
+					fmt.Sprintf("%s (%d. pass): %s", st.Op, int(passes), passErr))
+			} else {
+				passErr = ""
 			}
 			var probs []string
 			if capt, probs = lv.proj(); len(probs) > 0 {
@@ -497,7 +517,7 @@ func replayStore(t *testing.T, res *hx.Result, idx int, line []byte, b *sBehavio
 			file = nf
 		case "restart":
 			at(time.Duration(now+1) * interval)
-			now, nops, passes, since = now+1, 0, 0, nil
+			now, nops, passes, failedPasses, since = now+1, 0, 0, 0, nil
 			if err := start(file); err != nil {
 				fail(i, "lossless", "start-up error after restart", err.Error())
 				return // no store to go on with
@@ -506,7 +526,7 @@ func replayStore(t *testing.T, res *hx.Result, idx int, line []byte, b *sBehavio
 			got, probs := lv.proj()
 			if d := sameProj(capt, got); d != "" {
 				fail(i, "lossless", "state loaded after restart differs from the state captured by the last completed snapshot",
-					fmt.Sprintf("last pass: %s after API writes %v: %s", passKind, contentOps, d))
+					fmt.Sprintf("last pass: %s after API writes %v%s: %s", passKind, contentOps, passNote(passErr), d))
 			} else if len(probs) > 0 {
 				fail(i, "lossless", "state inconsistent after restart", probs[0])
 			}
@@ -556,6 +576,7 @@ func replayStore(t *testing.T, res *hx.Result, idx int, line []byte, b *sBehavio
 func TestReplay(t *testing.T) {
 	res := hx.NewResult()
 	defer res.Write()
+	crossDevice(t, res)
 	base := scratch(t, "store")
 	old := retention
 	defer func() { retention = old }()
